@@ -157,6 +157,9 @@ func (m *MuxBroker) Run() {
 		select {
 		case p.ch <- stream:
 		default:
+			// A connection is already pending for this ID; refuse this one
+			// rather than leaving its dialer waiting forever.
+			stream.Close()
 		}
 
 		// Wait for a timeout
